@@ -136,7 +136,11 @@ def _eval_case(pp, job):
                     pp.ParserElement.disable_memoization()
                 line = gram.model_line(mode_sexp(mode), entry, FUEL, ri, dw, s, keep, opts, nodes)
                 recs.append((s, entry, list(opts), list(mode), impl, line))
-    return {"records": recs, "n_nodes": len(nodes), "kinds": sorted({str(n[0][0]) for n in nodes})}
+    out = {"records": recs, "n_nodes": len(nodes), "kinds": sorted({str(n[0][0]) for n in nodes})}
+    if job.get("want_plain"):
+        # does the extracted node table fall under the closed PEG-reading theorem (Props/C01Sem.lean)?  Asked of the model.
+        out["plain_line"] = gram.model_line(mode_sexp(("none",)), "plain", 0, ri, dw, "", False, [], nodes)
+    return out
 
 
 def run_jobs(ctx, stream, jobs, project=None, nontrivial=None):
@@ -158,6 +162,13 @@ def run_jobs(ctx, stream, jobs, project=None, nontrivial=None):
             lines.append(line)
             impl.append(im)
     model = ctx.driver.run_sharded(lines) if lines else []
+    plain_q = [(r["plain_line"], len(r["records"])) for r in res if "skip" not in r and r.get("plain_line")]
+    n_plain_g = n_plain_c = 0
+    if plain_q:
+        for ans, (_, nrec) in zip(ctx.driver.run_sharded([l for l, _ in plain_q]), plain_q):
+            if ans.strip() == "T":
+                n_plain_g += 1
+                n_plain_c += nrec
     # the whole real call timed out: the model must say `hang` somewhere (partial scan results are not observable)
     model = ["hang" if (i == "hang" and m.endswith("hang)")) else m for m, i in zip(model, impl)]
     # CPython's recursion limit (deep right-recursive grammars on long inputs) is a property of the runtime, not of
@@ -183,6 +194,10 @@ def run_jobs(ctx, stream, jobs, project=None, nontrivial=None):
                            outcome_of=outcome_of)
     st = ctx.cov["streams"][stream] if cases else ctx.cov["streams"].setdefault(stream, {"cases": 0, "diffs": 0, "outcomes": {}})
     st["skipped_grammars"] = {**st.get("skipped_grammars", {}), **skips}
+    if plain_q:
+        st["plain_fragment"] = {"grammars_asked": len(plain_q), "grammars_plain": n_plain_g, "compared_cases_on_plain_grammars": n_plain_c,
+                                "meaning": "node tables for which the driver evaluates plainTable = true, i.e. the hypothesis "
+                                           "Plain g of plain_parse_sound / plain_parse_iff_sem holds for the compared grammar"}
     if n_rec:
         st["python_recursion_limit"] = st.get("python_recursion_limit", 0) + n_rec
     kk = st.setdefault("node_kinds_hit", {})
